@@ -180,7 +180,7 @@ def cases(tier, seed, shard, nshards):
                     if k % nshards == shard:
                         yield {"feats": feats, "pos": pos, "d": d, "mode": mode}
     rnd = random.Random("C10:%d:%d" % (seed, shard))
-    n = (2500 if tier == "quick" else 240000) // nshards
+    n = (30000 if tier == "quick" else 480000) // nshards
     for i in range(n):
         yield {"feats": sorted(rnd.sample(FEATURES, rnd.randint(2, 6))), "pos": rnd.choice(POSITIONS), "d": DIALECT_CLASSES[i % 6],
                "mode": rnd.choice(["inline", "param"])}
